@@ -1,6 +1,7 @@
 package checks
 
 import (
+	"encoding/json"
 	"fmt"
 	"sort"
 	"strings"
@@ -366,6 +367,42 @@ func c17Case(c *fw.Case, thorough bool) {
 			g2, _ := oracle.Generic(rr.Document)
 			if !oracle.JSONEqual(g1, g2) {
 				c.Failf("process-operation-document-differs", map[string]interface{}{"did": did}, "document from ProcessOperation differs from its resolution")
+			}
+		}
+	}
+	// the same create request in another spelling (indented, members reordered): same operation, hence the same canonical DID
+	{
+		spelled := gen.Spell(r, req, gen.SpellOpts{Shuffle: true, Whitespace: true})
+		c.Count("process-operation-respelled", 1)
+		c.Evals(1)
+		if pr2, err := h.ProcessOperation(spelled); err != nil {
+			c.Failf("process-operation-respelled-error", map[string]interface{}{"request": string(spelled), "err": err.Error()}, "ProcessOperation refused a valid create request in another spelling: %v", err)
+		} else if pid2, _ := pr2.Document["id"].(string); pid2 != did {
+			c.Failf("process-operation-respelled-other-did", map[string]interface{}{"request": string(spelled), "did": did, "returned_id": pid2}, "ProcessOperation returns another DID for the same create request in another spelling")
+		} else if _, err := h.ResolveDocument(pid2); err != nil {
+			c.Failf("process-operation-result-not-resolvable", map[string]interface{}{"did": did, "returned_id": pid2, "err": err.Error()}, "DID returned by ProcessOperation does not resolve")
+		}
+	}
+	// an initial state without the optional "type" member (the form other Sidetree implementations produce): if the handler resolves
+	// it, the document's id is the DID that was asked for
+	{
+		noType := map[string]interface{}{}
+		for k, v := range req {
+			if k != "type" {
+				noType[k] = v
+			}
+		}
+		did2 := "did:ion:" + suffix + ":" + oracle.B64(oracle.MustJCS(noType))
+		c.Count("initial-state-without-type", 1)
+		c.Evals(1)
+		if rr, err := h.ResolveDocument(did2); err != nil {
+			c.Count("initial-state-without-type-refused", 1)
+		} else if id2, _ := rr.Document["id"].(string); id2 != did2 {
+			c.Failf("resolved-id-is-not-the-requested-did", map[string]interface{}{"requested": did2, "document_id": id2}, "resolving a long-form DID whose initial state has no type member yields a document with another id")
+		} else {
+			g, _ := oracle.Generic(rr.Document)
+			if b, _ := json.Marshal(g); strings.Contains(string(b), oracle.B64(oracle.MustJCS(req))) {
+				c.Failf("resolved-document-names-another-did", map[string]interface{}{"requested": did2}, "the document resolved for the type-less DID contains ids built on the DID with a type member")
 			}
 		}
 	}
